@@ -80,6 +80,9 @@ LmOver(x, k) ==
     [] k = 8 -> IF \E m \in DOMAIN LmDblT : LmDblT[m] = x.lm THEN OKV(NumK([lm |-> Inv(LmDblT, x.lm)])) ELSE UNDEF
     [] OTHER -> UNDEF
 LmFactors == {Qn(4), Qn(-4), Qn(0), Qn(8)}
+\* whole numbers around and beyond the machine widths (each is held at several mantissa precisions by the harness)
+CmpLms == {"i64max", "i64maxp", "u64max", "u64maxp", "u64maxpp", "e30", "f32maxp", "f64max", "f64int", "f64intp", "i64min", "i64minm", "mf32maxp"}
+LmPairs == {<<NumK([lm |-> x]), NumK([lm |-> y])>> : x \in CmpLms, y \in CmpLms} \cup {<<NumK([lm |-> x]), NumV(4)>> : x \in CmpLms} \cup {<<NumV(-4), NumK([lm |-> x])>> : x \in CmpLms}
 LmScaled == DOMAIN LmNegT \cup {LmNegT[m] : m \in DOMAIN LmNegT} \cup DOMAIN LmDblT \cup {LmDblT[m] : m \in DOMAIN LmDblT} \cup {"i64max", "u64max", "f64intp", "i64minm"}
 RefArith(op, x, y) ==     \* x, y number payloads
   IF ~(HasRank(x) /\ HasRank(y)) THEN UNDEF
@@ -214,6 +217,9 @@ CallFailed(e) ==
   \cup (IF Has(ref, "undef") \/ ~ref.ok \/ ~Has(e, "rp") THEN {}
         ELSE IF \E i \in 1..Len(e.rp) : e.rp[i].mp >= NeedBits(ref.val) /\ (~e.rp[i].r.ok \/ (~NumUnranked(e.rp[i].r.val) /\ ~Match(e.rp[i].r.val, ref.val)))
              THEN {"C02.ResultIsRefAllReps"} ELSE {})
+  \* comparisons and equality do not depend on the precision either operand is held at: every mix of representations gives the reference answer
+  \cup (IF Has(ref, "undef") \/ ~ref.ok \/ ~Has(e, "rm") \/ e.api \notin NumCmp \cup EqOps THEN {}
+        ELSE IF \E i \in 1..Len(e.rm) : ~e.rm[i].ok \/ ~Match(e.rm[i].val, ref.val) THEN {"C02.ResultIsRefAllReps"} ELSE {})
   \* (x.dup: a constructor given two spellings of one key - which entry survives follows Go map order; not judged)
   \cup (IF Len(e.rs) = 1 \/ Has(e.x, "dup") THEN {} ELSE {"C20.Pure"})
   \cup InputsChanged(e)
@@ -293,6 +299,7 @@ ArgTuples(op) ==
                         \cup (IF op = "Multiply" THEN {<<NumK([lm |-> n]), K(TNum, u)>> : n \in LmScaled, u \in LmFactors} \cup {<<K(TNum, u), NumK([lm |-> n])>> : n \in LmScaled, u \in LmFactors} ELSE {})
                         \cup (IF op = "Divide" THEN {<<NumK([lm |-> n]), K(TNum, u)>> : n \in LmScaled, u \in LmFactors \ {Qn(0)}} ELSE {})
                         \cup (IF op \in {"Divide", "Subtract"} THEN {<<NumK([lm |-> n]), NumK([lm |-> n])>> : n \in LmScaled} ELSE {})
+                        \cup (IF op \in NumCmp THEN LmPairs ELSE {})
     [] op \in NumUn -> {<<x>> : x \in NumK1} \cup {<<NumK([lm |-> n])>> : n \in LmScaled}
     [] op \in BoolBin -> {<<x, y>> : x \in BoolK1, y \in BoolK1}
     [] op \in BoolUn -> {<<x>> : x \in BoolK1}
@@ -320,6 +327,7 @@ Differ1(x, v) ==
     [] OTHER -> FALSE
 EqPairs(t) == LET A == AllVals(t) IN
   UNION {{<<x, y>> : y \in {x} \cup TakeN(A, IF Thorough THEN 6 ELSE 3) \cup TakeN({v \in A : Differ1(x, v)}, IF Thorough THEN 4 ELSE 2)} : x \in A}
+  \cup (IF t.k = "number" THEN LmPairs ELSE {})
 
 \* ill-typed operand tuples (C02.RejectsIllTyped) and documented "False" cases
 IllTyped(op) ==
